@@ -1154,5 +1154,55 @@ def _rule_fh1(ctx: Ctx, which_sites):
                     r1.ob(ok, lambda p=p, which=which: mk_finding(
                         "FH-1", hs, None, {}, p, "the parquet writer must be closed (footer written) before its file is closed and before %s is forwarded; this path: %s" % (
                             which, [e.brief() for e in seq]), extra="writer"))
+        # file.write: every item goes to the handle as it comes -- one write of the item on every path of on_next
+        if inner_close is None:
+            for hs in site.handler_specs("on_next"):
+                for p in ctx.paths(hs, None, {}):
+                    r1.paths += 1
+                    if p.outcome == "raise" or any(e.d.get("raised") for e in p.trace):
+                        continue
+                    ws = [e for e in p.trace if e.k in ("call", "mutate") and e.d.get("method") == "write" and e.args and e.args[0] == EV
+                          and e.d.get("base") is not None and e.d["base"][0] == "free" and e.d["base"][1] == H]
+                    kept = [e for e in p.trace if (e.k == "nonlocal" and any(x == EV for x in subterms(e.value))) or
+                            (e.k == "mutate" and e not in ws and any(x == EV for a_ in e.args for x in subterms(a_)))]
+                    if len(ws) != 1 and kept:
+                        # a write buffer: the items kept in a closure variable must reach the file when the source completes, whichever
+                        # kind of target was given (a path the operator opened, or the caller's file object)
+                        bnames = set()
+                        for e in kept:
+                            if e.k == "nonlocal":
+                                bnames.add(e.name)
+                            else:
+                                b = e.base
+                                while b[0] in ("sub", "attr") and isinstance(b[1], tuple):
+                                    b = b[1]
+                                if b[0] == "free":
+                                    bnames.add(b[1])
+                        if not bnames:
+                            raise AnalysisError("%s::%s: on_next keeps the item (%s) instead of writing it to the file at once, in something FH-1 cannot "
+                                                "name" % (rel, suffix.split(".")[0], kept[0].brief()))
+                        for cs in site.handler_specs("on_completed"):
+                            groups = {}
+                            for q in ctx.paths(cs, None, {}):
+                                r1.paths += 1
+                                if q.outcome == "raise" or any(e.d.get("raised") for e in q.trace):
+                                    continue
+                                out = [e for e in q.trace if e.k in ("call", "mutate") and e.d.get("method") in ("write", "writelines")
+                                       and any(x[0] == "free" and x[1] in bnames for a_ in e.args for x in subterms(a_))]
+                                # the tests that are not about the buffer itself (an empty buffer has nothing to write) tell the situations apart:
+                                # in each of them some path must write the buffer out
+                                sit = tuple((show(e.test), e.outcome) for e in q.trace if e.k == "decision"
+                                            and not any(x[0] == "free" and x[1] in bnames for x in subterms(e.test)))
+                                g = groups.setdefault(sit, [False, q])
+                                g[0] = g[0] or bool(out)
+                            for sit, (okg, q) in sorted(groups.items(), key=str):
+                                r1.ob(okg, lambda q=q, cs=cs, bnames=bnames, sit=sit: mk_finding(
+                                    "FH-1", cs, None, {}, q, "on_next holds items back in %s; when the source completes with %s nothing of it is written to the "
+                                    "file on any path: the last items never reach it" % (
+                                        sorted(bnames), "; ".join("%s is %s" % s for s in sit)[:120] or "no condition"), extra="buffer-flush"))
+                        continue
+                    r1.ob(len(ws) == 1, lambda p=p, hs=hs, ws=ws: mk_finding(
+                        "FH-1", hs, None, {}, p, "every item must be written to the file handle once, as it comes; this path writes it %d times: %s" % (
+                            len(ws), "; ".join(e.brief() for e in p.trace if e.k in ("call", "decision"))[:160]), extra="item-write"))
     r1.require_instances(1)
     return r1
